@@ -442,7 +442,8 @@ class CallMixin:  # pylint:disable=too-many-public-methods
                 if a in ("upper", "lower", "strip", "lstrip", "rstrip", "startswith", "endswith", "replace", "split",
                          "isdigit", "title", "capitalize", "zfill", "removesuffix", "removeprefix", "casefold",
                          "isnumeric", "isdecimal", "count", "find", "rfind", "partition", "rpartition", "splitlines",
-                         "isalpha", "isupper", "islower", "swapcase", "center", "ljust", "rjust", "index"):
+                         "isalpha", "isupper", "islower", "swapcase", "center", "ljust", "rjust", "index", "isspace", "isalnum", "isascii",
+                         "isidentifier", "istitle", "isprintable", "expandtabs", "encode", "rsplit", "rindex", "translate"):
                     try:
                         return getattr(r, a)(*args)
                     except ValueError as err:
